@@ -238,11 +238,18 @@ Proof. induction a as [|x a IH]; [destruct b; reflexivity|]. cbn. now rewrite IH
 Lemma skipn_len_app {A} (a b : list A) x : skipn (S (length a)) (a ++ x :: b) = b.
 Proof. induction a as [|y a IH]; [reflexivity|]. exact IH. Qed.
 
-Definition ends_with (c : Z) (l : bytes) : bool :=
-  match rev l with x :: _ => x =? c | [] => false end.
+(* str.endswith(one character); linear (List.rev is quadratic, and cmdline files reach hundreds of KiB) *)
+Fixpoint ends_with (c : Z) (l : bytes) : bool :=
+  match l with
+  | [] => false
+  | x :: r => match r with [] => x =? c | _ :: _ => ends_with c r end
+  end.
 
 Lemma ends_with_snoc c x d : ends_with c (x ++ [d]) = (d =? c).
-Proof. unfold ends_with. rewrite rev_app_distr. reflexivity. Qed.
+Proof.
+  induction x as [|y x IH]; [reflexivity|].
+  cbn [app ends_with]. destruct (x ++ [d]) eqn:E; [destruct x; discriminate|]. exact IH.
+Qed.
 
 Lemma removelast_snoc {A} (x : list A) d : removelast (x ++ [d]) = x.
 Proof. apply removelast_last. Qed.
